@@ -36,6 +36,7 @@ def plan(tier, seed):
                               classes=1 if q else 4))
         specs.append(dict(name="phases-%d" % i, mode="interp", what="phases", input=i, seed=seed))
     specs.append(dict(name="frontends", mode="interp", what="frontends", seed=seed))
+    specs.append(dict(name="initfaults", mode="interp", what="initfaults", seed=seed, n=6 if q else 30))
     for p in range(2 if q else 6):
         specs.append(dict(name="nodonor-%d" % p, mode="interp", what="nodonor", seed=seed, part=p, n=4))
     if not q:
@@ -133,6 +134,8 @@ def faulted_call(res, case, expect, label, key):
 
 
 def _fault_reached(run, case):
+    if (case.get("init") or {}).get("kind") == "raise":
+        return True
     for k in (case.get("task_plan") or {}):
         if int(k) < len(run.tasks):
             return True
@@ -224,7 +227,11 @@ def run_frontends(spec, res):
               ("generator -> ticc_labels", lambda: fast_ticc.ticc_labels((x for x in [d, d]), **kw), "ticc_joint_labels"),
               ("2-D array -> ticc_joint_labels", lambda: fast_ticc.ticc_joint_labels(d, **kw), "ticc_labels"),
               ("list of one -> ticc_labels", lambda: fast_ticc.ticc_labels([d], **kw), "ticc_joint_labels"),
-              ("3 series list -> ticc_labels", lambda: fast_ticc.ticc_labels([d, d[:20], d[:30]], **kw), "ticc_joint_labels")]
+              ("3 series list -> ticc_labels", lambda: fast_ticc.ticc_labels([d, d[:20], d[:30]], **kw), "ticc_joint_labels"),
+              ("wide 2-D array (40x6, W=3) -> ticc_joint_labels", lambda: fast_ticc.ticc_joint_labels(rng.normal(size=(40, 6)), window_size=3, num_clusters=2, iteration_limit=2, min_cluster_size=2), "ticc_labels"),
+              ("wide 2-D array (30x9, W=10) -> ticc_joint_labels", lambda: fast_ticc.ticc_joint_labels(rng.normal(size=(30, 9)), window_size=10, num_clusters=2, iteration_limit=2, min_cluster_size=2), "ticc_labels"),
+              ("square 2-D array (12x12, W=2) -> ticc_joint_labels", lambda: fast_ticc.ticc_joint_labels(rng.normal(size=(12, 12)), window_size=2, num_clusters=2, iteration_limit=2, min_cluster_size=2), "ticc_labels"),
+              ("list of lists -> ticc_labels", lambda: fast_ticc.ticc_labels([[1.0, 2.0], [2.0, 1.0], [0.5, 0.1], [3.0, 1.0], [2.0, 2.0], [1.0, 0.0]], **kw), None)]
     for name, f, must in trials:
         case = dict(what="frontends", trial=name)
         try:
@@ -232,10 +239,13 @@ def run_frontends(spec, res):
                 f()
             res.violation("%s returned a result instead of raising TypeError" % name, case)
         except TypeError as e:
-            if must not in str(e):
+            if must is not None and must not in str(e):
                 res.violation("%s: TypeError does not name the right entry point %s: %s" % (name, must, str(e)[:150]), case)
         except Exception as e:
-            res.violation("%s raised %s(%s) instead of a TypeError naming %s" % (name, type(e).__name__, str(e)[:100], must), case)
+            if must is None:
+                res.count("frontend_other_errors")          # a plain list of lists is not one of the two array kinds: any error will do
+            else:
+                res.violation("%s raised %s(%s) instead of a TypeError naming %s" % (name, type(e).__name__, str(e)[:100], must), case)
         res.evaluations += 1
         kids = children_of_self()
         if kids:
@@ -243,6 +253,37 @@ def run_frontends(spec, res):
         res.nontriv("frontend-" + name)
         res.count("frontend_swaps")
     res.sample(dict(what="swapped front ends", trials=[t[0] for t in trials]))
+
+
+def run_initfaults(spec, res):
+    """Failures before the first round (mixture model refuses the data; the initial labelling raises): same oracle."""
+    from ticcmon import inject
+    rng = np.random.default_rng([spec["seed"], 203])
+    for j in range(spec["n"]):
+        wc.NW_CAP[0] = 4
+        case = wc.gen_single(rng, "small") if j % 3 else wc.gen_joint(rng, "joint")
+        case["data"]["flavor"] = "plain"
+        case["biased"] = True
+        case["eps"] = 0.0
+        case["mp"] = bool(j % 2)
+        case["nproc"] = 3
+        kind = ["too_few_points", "init_raises"][j % 2]
+        if kind == "too_few_points":
+            case["K"] = 6
+            if isinstance(case["data"]["T"], int):
+                case["data"]["T"] = case["W"] + 2          # 3 stacked points < 6 clusters: scikit-learn refuses
+            else:
+                case["data"]["T"] = [case["W"], case["W"] + 1]
+            expect = ("ValueError", "")
+        else:
+            case["init"] = dict(kind="raise", cls=EXC_ROT[j % len(EXC_ROT)], msg="init-fault-%d" % j)
+            expect = (case["init"]["cls"], case["init"]["msg"])
+        fired = faulted_call(res, case, expect, "failure before round 0 (%s, %s pool)" % (kind, "3-process" if case["mp"] else "single-process"),
+                             "init-%s-%d" % (kind, j))
+        if fired:
+            res.count("init_faults_fired")
+        if j == 0:
+            res.sample(case)
 
 
 def run_nodonor(spec, res):
@@ -389,6 +430,8 @@ def run_shard(spec, res):
         run_frontends(spec, res)
     elif what == "nodonor":
         run_nodonor(spec, res)
+    elif what == "initfaults":
+        run_initfaults(spec, res)
     else:
         run_death(spec, res)
 
@@ -422,7 +465,8 @@ def finalize(merged, tier):
     out = {"inconclusive": []}
     q = tier == "quick"
     c = merged["counters"]
-    for key, least in (("faults_fired", 25 if q else 300), ("clean_calls_after_failure", 25 if q else 300), ("frontend_swaps", 6),
+    for key, least in (("faults_fired", 25 if q else 300), ("clean_calls_after_failure", 25 if q else 300), ("frontend_swaps", 9),
+                       ("init_faults_fired", 4 if q else 20),
                        ("nodonor_errors", 2 if q else 6)):
         if c.get(key, 0) < least:
             out["inconclusive"].append("monitor counter %s=%d below %d" % (key, c.get(key, 0), least))
